@@ -442,6 +442,7 @@ type mach struct {
 	WKind   string
 	logSeen int
 	wSeen   int
+	AutoSave bool // current auto-save flag (tracked by newMach / apply)
 }
 
 func toIface(r []string) []interface{} {
@@ -468,7 +469,7 @@ func newMach(conf machConf, autosave, autonotify bool, wkind string, content []p
 	e.SetAdapter(a)
 	e.EnableAutoSave(autosave)
 	e.EnableAutoNotifyWatcher(autonotify)
-	mm := &mach{Conf: conf, E: e, A: a, WKind: wkind}
+	mm := &mach{Conf: conf, E: e, A: a, WKind: wkind, AutoSave: autosave}
 	snap := func() string { return mm.listedKey() + " # " + a.contentKey() }
 	switch wkind {
 	case "plain":
@@ -609,6 +610,7 @@ func (m *mach) apply(o mOp) (res string) {
 		return resStr(err == nil, err)
 	case "autosave":
 		e.EnableAutoSave(o.B)
+		m.AutoSave = o.B
 		return "ok1"
 	case "autonotify":
 		e.EnableAutoNotifyWatcher(o.B)
